@@ -9,16 +9,15 @@ KB_TB = [
 HND_FILES = ["Model/Handler.v", "Run/HandlerRun.v"]
 HNDB_FILES = ["Proofs/HandlerB_Base.v", "Proofs/HandlerB_Frame.v", "Proofs/HandlerB_Session.v", "Proofs/HandlerB_Auth.v", "Proofs/HandlerB_Step.v", "Proofs/HandlerB_Fresh.v", "Proofs/HandlerB_Nonce.v"]
 HND_TB = [
-    "modelled, not verified: cryptography is symbolic (Dolev-Yao terms for ECDH/HKDF keys, AES-GCM ciphertexts, ECDSA id-signatures; the harness maps real datagrams to terms with the crate's own primitives and tests that the real primitives behave like the terms on every generated case); tokio timers are deadlines fired on a 5 ms grid of a paused clock; the order in which timers with one and the same deadline fire is an oracle choice (insertion order or its reverse, the two behaviours of tokio-util's timer wheel); randomness is an oracle input observed on the wire; session expiry by age is not part of the handler model (Model/Lru.v); the UDP socket tasks are replaced by channels (real RecvHandler::handle_inbound and Packet::encode/decode are used)",
+    "modelled, not verified: cryptography is symbolic (Dolev-Yao terms for ECDH/HKDF keys, AES-GCM ciphertexts, ECDSA id-signatures; the harness maps real datagrams to terms with the crate's own primitives and tests that the real primitives behave like the terms on every generated case; a contact or peer with an Ed25519 key is one for which no session keys can be derived and no id-signature verifies); tokio timers are deadlines fired on a 5 ms grid of a paused clock; the order in which timers with one and the same deadline fire is an oracle choice (insertion order or its reverse, the two behaviours of tokio-util's timer wheel); randomness is an oracle input observed on the wire; the session cache is modelled with its capacity and its time to live (the instant of the last use is part of every session), and in these runs the real cache reads the same paused clock through the hook verif::cache::set_virtual_clock (DESIGN.md section 9; the cache-level lru runs and the hnd --focus c15 runs use the system clock); the UDP socket tasks are replaced by channels (real RecvHandler::handle_inbound and Packet::encode/decode are used)",
 ]
 def _hnd(focus, quick=128, thorough=1500, extra=()):
     return {
         "coq_files": HND_FILES + list(extra),
         "runner_vo": "Run/HandlerRun.v",
         "harness": [{"component": "hnd", "args": ["--focus", focus, "--fixes", "all"], "quick": quick, "thorough": thorough}] + (
-            # requests addressed to a node with an Ed25519 identity (building the handshake fails): monitor only,
-            # the model covers secp256k1 contacts
-            [{"component": "hnd", "args": ["--focus", focus + "ed", "--fixes", "all"], "quick": 48, "thorough": 600, "correspondence": False}]
+            # a larger share of requests addressed to a node with an Ed25519 identity (building the handshake fails)
+            [{"component": "hnd", "args": ["--focus", focus + "ed", "--fixes", "all"], "quick": 48, "thorough": 600}]
             if focus in ("c04", "c13") else []),
         "trusted_base": HND_TB,
         "assumptions": ["request ids chosen by the application are distinct per run", "oracle freshness where a theorem states it"],
@@ -101,18 +100,21 @@ SPECS = {
         "explanation": "invariant over all interleavings of deliver/respond/drop/hold/shutdown in Model/Talk.v (at most one response, exactly one with the right id/address/payload while running, error value and no panic after shutdown) + correspondence on real TalkRequest objects created by the hook constructor and by the real Service::handle_rpc_request + direct exactly-once monitor incl. multi-threaded answers",
     },
     "C15": {
-        "coq_files": ["Model/Lru.v", "Proofs/Lru.v", "Run/LruRun.v"],
-        "runner_vo": "Run/LruRun.v",
+        "coq_files": ["Model/Lru.v", "Proofs/Lru.v", "Run/LruRun.v", "Model/Handler.v", "Run/HandlerRun.v"],
+        "runner_vo": ["Run/LruRun.v", "Run/HandlerRun.v"],
         "harness": [
             {"component": "lru", "args": [], "quick": 64, "thorough": 640},
             # handler level, real clock: an idle session is not used again (monitor only)
             {"component": "hnd", "args": ["--focus", "c15"], "quick": 24, "thorough": 200, "correspondence": False},
+            # handler level, paused clock: histories with short session timeouts (scripted expiry openings, the
+            # boundary included) compared step by step with Model/Handler.v, which carries the time of last use
+            {"component": "hnd", "args": ["--focus", "c15x", "--fixes", "all"], "quick": 96, "thorough": 1000},
             # handler histories with small configured capacities: the number of sessions held (monitor only)
             {"component": "hnd", "args": ["--focus", "c13", "--fixes", "all"], "quick": 48, "thorough": 600, "correspondence": False},
         ],
         "trusted_base": [
             "modelled, not verified: std::time::Instant (time is an explicit argument of every model operation; the harness runs the real cache in real time with ttl 100 ms on a 40 ms grid, brackets every call with measured instants and reads the stored instants back through the hook LruTimeCache::verif_dump), hashlink::LinkedHashMap (modelled as a list in link order: insert/to_back move an entry to the back, pop_front removes the front)",
-            "the handler-level half of C15 (Handler::sessions is only read through get_mut/get, so an expired session takes the no-session path) belongs to the handler model; this check covers the cache LruTimeCache",
+            "the handler-level half of C15 (Handler::sessions is only read through get_mut/get, so an expired session takes the no-session path) is part of Model/Handler.v (sess_get, remove_expired_sessions) and of the third harness run; in that run the cache reads the paused tokio clock through the hook verif::cache::set_virtual_clock",
         ],
         "assumptions": [
             "evicts_lru / refinement assume a clock that never goes back (Instant is monotonic); len_bounded and get_never_stale hold for every clock",
@@ -284,3 +286,19 @@ SPECS.update({
 # because of the handshake"): the scripted-service histories of C12 are run again as monitor-only runs of
 # C01 (an UnverifiableEnr report that carries the record of another node must not touch that node's entry)
 SPECS["C01"]["harness"].append({"component": "service", "args": ["--focus", "c12"], "quick": 96, "thorough": 1200, "correspondence": False})
+
+# files added by the clause-by-clause gap audit (notes/gap_audit_*.md)
+SPECS["C16"]["coq_files"] = SPECS["C16"]["coq_files"] + ["Proofs/SubnetGap.v"]
+SPECS["C20"]["coq_files"] = SPECS["C20"]["coq_files"] + ["Proofs/TalkGap.v"]
+SPECS["C15"]["coq_files"] = SPECS["C15"]["coq_files"] + ["Proofs/LruGap.v"]
+SPECS["C14"]["coq_files"] = SPECS["C14"]["coq_files"] + ["Proofs/ServeGap.v"]
+SPECS["C17"]["coq_files"] = SPECS["C17"]["coq_files"] + ["Proofs/IpVoteGap.v"]
+SPECS["C18"]["coq_files"] = SPECS["C18"]["coq_files"] + ["Proofs/LimiterGap.v", "Proofs/LimiterGap2.v"]
+SPECS["C08"]["coq_files"] = SPECS["C08"]["coq_files"] + ["Proofs/KBucketGap.v"]
+SPECS["C07"]["coq_files"] = SPECS["C07"]["coq_files"] + ["Proofs/KBucketGap.v"]
+SPECS["C09"]["coq_files"] = SPECS["C09"]["coq_files"] + ["Proofs/QueryGap.v"]
+SPECS["C10"]["coq_files"] = SPECS["C10"]["coq_files"] + ["Proofs/QueryGap.v"]
+SPECS["C05"]["coq_files"] = SPECS["C05"]["coq_files"] + ["Proofs/PacketGap.v"]
+SPECS["C06"]["coq_files"] = SPECS["C06"]["coq_files"] + ["Proofs/RpcGap.v"]
+SPECS["C11"]["coq_files"] = SPECS["C11"]["coq_files"] + ["Proofs/NodesGap.v"]
+SPECS["C12"]["coq_files"] = SPECS["C12"]["coq_files"] + ["Proofs/AdmissionGap.v"]
